@@ -138,11 +138,16 @@ func Rotate(root *RNode, r Rnd) {
 
 // SPR prunes a random subtree and regrafts it on a random branch outside of it (topology move on an
 // unrooted, at least trifurcating-root tree). Lengths are kept on the moved branches.
-func SPR(root *RNode, r Rnd) {
+func SPR(root *RNode, r Rnd) { sprWith(root, r, false) }
+
+// RogueMove moves one tip somewhere else (a "rogue taxon": the typical difference between bootstrap trees).
+func RogueMove(root *RNode, r Rnd) { sprWith(root, r, true) }
+
+func sprWith(root *RNode, r Rnd, onlyTips bool) {
 	nodes := root.all()
 	var cands []*RNode
 	for _, x := range nodes {
-		if x.Parent != nil {
+		if x.Parent != nil && (!onlyTips || x.IsTip()) {
 			cands = append(cands, x)
 		}
 	}
